@@ -699,9 +699,15 @@ func (dm *DagModifier) Seek(offset int64, whence int) (int64, error) {
 	case io.SeekStart:
 		newoffset = uint64(offset)
 	case io.SeekEnd:
-		newoffset = uint64(fisize) - uint64(offset)
+		// io.Seeker: the offset is relative to the end, negative
+		// values seek backwards
+		newoffset = uint64(fisize) + uint64(offset)
 	default:
 		return 0, ErrUnrecognizedWhence
+	}
+
+	if int64(newoffset) < 0 {
+		return 0, errors.New("invalid offset: negative position")
 	}
 
 	if int64(newoffset) > fisize {
